@@ -276,3 +276,35 @@ func init() {
 		})
 	})
 }
+
+func init() {
+	extraRegs = append(extraRegs, func(in *Interp) {
+		// publish.NewMessage: the payload is json.Marshal(event) exactly as in the real
+		// function; the message id and the tracing metadata are constants.
+		in.reg("github.com/formancehq/stack/libs/go-libs/publish.NewMessage", func(th *Thread, fn *ssa.Function, a []Value) Value {
+			ev := a[1]
+			evT := fn.Signature.Params().At(1).Type()
+			data, errv := th.jsonMarshalTop(Iface{T: evT, V: ev})
+			if errv != nil {
+				panic(TargetPanic{errv})
+			}
+			th.stub("publish.NewMessage: uuid and otel context are constants")
+			mt := in.Prog.ImportedPackage("github.com/ThreeDotsLabs/watermill/message").Type("Message").Type()
+			msg := in.zero(mt).(Struct)
+			st := mt.Underlying().(*types.Struct)
+			for i := 0; i < st.NumFields(); i++ {
+				switch st.Field(i).Name() {
+				case "UUID":
+					msg[i] = "00000000-0000-0000-0000-000000000001"
+				case "Metadata":
+					m := newMap()
+					th.mapUpdate(m, "otel-context", "{}")
+					msg[i] = m
+				case "Payload":
+					msg[i] = strToBytes(data)
+				}
+			}
+			return ptrTo(msg)
+		})
+	})
+}
